@@ -19,6 +19,11 @@ import IbicusModel.Lemmas.C06Except
 import IbicusModel.Lemmas.C06Isimip
 import IbicusModel.Lemmas.C06Months
 import IbicusModel.Lemmas.C06Detrend
+import IbicusModel.Lemmas.C06Window
+import IbicusModel.Lemmas.C06Centre
+import IbicusModel.Lemmas.C06MonthsC
+import IbicusModel.Lemmas.C06Cycle
+import IbicusModel.Lemmas.GenPrecipFit
 import IbicusModel.Lemmas.IsimipModel
 import IbicusModel.Lemmas.GenDebiasers
 
@@ -616,6 +621,10 @@ theorem sdm_relative_time_order_equivariant {P} (Fam : Family P) (thr t : Rat) (
 
 /-! ## 9. Window functions that may raise, in the running-window loop: relative SDM, ISIMIP `_apply_on_window`
 
+  (The ISIMIP theorems of this section — `…_partial`: no bound / threshold pair, the same oracle for every window — are
+  kept as the simple special cases; §9b–9c state the property for EVERY configuration, with oracles / draws per window, on
+  `Model.Isimip.applyLocationRW` / `applyLocationMonths` themselves.)
+
   `TimeOrderEquivariantRWE f ok`: under the guards of `TimeOrderEquivariantRW`, either both runs succeed and the result
   is permuted like `cm_future`, or both runs raise the same error. -/
 
@@ -879,6 +888,571 @@ theorem isimip_months_detrending_time_order_equivariant_partial (c : Cfg) (fam :
   exact equivariance_months_E f' (isimipDCtx c fam o) (isimipDG c o) (fun _ _ _ _ _ _ => rfl) (isimipD_orderFree c fam o)
     mO mH mF obs hist fut pO pH pF hpO hpH hpF hlO hlH hlF hr
 
+/-! ## 9b. ISIMIP `_apply_on_window`, EVERY configuration (steps 3–7: detrending on or off, randomisation of the values
+  beyond the thresholds, every trend-transfer method, parametric / non-parametric step 6)
+
+  What differs from window to window besides the samples — the numbers `np.random.uniform` returned (`Draws`) and the
+  decisions of the statistical tests (`Oracles`) — is a function of the window centre; both runs of the comparison see the
+  same function ("the same seed gives the same numbers for the same window").  Guard (`WindowGuard`): the values that get
+  ranked — in each active stage of step 4 and in step 6 — are tie-free. -/
+
+open Model.Isimip in
+/-- tie-free through step 4 and into step 6 -/
+def WindowGuard (c : Cfg) (o : Oracles) (d : Draws) (ob h x : List Dated) : Prop :=
+  SeriesGuard c d.lowO (detrG c o.sigO ob) ∧ SeriesGuard c d.lowH (detrG c o.sigH h) ∧
+  SeriesGuard c d.lowF (detrG c o.sigF x) ∧
+  ∀ T, step4Ctx c d (detrG c o.sigO ob) (detrG c o.sigH h) (detrG c o.sigF x) = .ok T →
+    ((detrG c o.sigF x).map T.2.2).Nodup
+
+open Model.Isimip in
+/-- the order-free, error-aware context of the whole window: the step-4 map of `cm_future` and `mapped_vals` of step 6 -/
+def winCtx (c : Cfg) (fam : IsiFamily) (o : Oracles) (d : Draws) (ob h x : List Dated) :
+    Except String ((Rat → Rat) × List Rat) :=
+  (step4Ctx c d (detrG c o.sigO ob) (detrG c o.sigH h) (detrG c o.sigF x)).bind (fun T =>
+    (isimipCtx c fam o ((detrG c o.sigO ob).map T.1) ((detrG c o.sigH h).map T.2.1) ((detrG c o.sigF x).map T.2.2)).map
+      (fun m => (T.2.2, m)))
+
+open Model.Isimip in
+/-- the value of one step: remove the trend of its year, randomise if beyond a threshold, read `mapped_vals` at its rank,
+    add the trend back -/
+def winG (c : Cfg) (o : Oracles) (Tm : (Rat → Rat) × List Rat) (x : List Dated) (p : Dated) : Dated :=
+  (rankRead Tm.2 ((detrG c o.sigF x).map Tm.1) (Tm.1 (p.1 - trendG c o.sigF x p.2)) + trendG c o.sigF x p.2, p.2)
+
+open Model.Isimip in
+/-- **`_apply_on_window` is an element-wise map of (value, year) over an order-free context — every configuration** -/
+theorem isimip_window_pointwise_orderfree (c : Cfg) (fam : IsiFamily) (o : Oracles) (d : Draws) (ob h x : List Dated)
+    (hg : WindowGuard c o d ob h x) :
+    isimipWinD c fam o d ob h x = (winCtx c fam o d ob h x).map (fun Tm => x.map (fun p => (winG c o Tm x p).1)) := by
+  obtain ⟨g1, g2, g3, g4⟩ := hg
+  unfold winCtx isimipCtx
+  rw [isimipWinD_general, step4_eq c d _ _ _ g1 g2 g3]
+  cases hT : step4Ctx c d (detrG c o.sigO ob) (detrG c o.sigH h) (detrG c o.sigF x) with
+  | error e => rfl
+  | ok T =>
+    simp only [Except.map, Except.bind]
+    rw [step5_eq]
+    cases step5Ctx c o ((detrG c o.sigO ob).map T.1) ((detrG c o.sigH h).map T.2.1) ((detrG c o.sigF x).map T.2.2) with
+    | error e => rfl
+    | ok T5 =>
+      simp only [Except.map, Except.bind]
+      rw [isimip_step6_pointwise_orderfree c fam o _ _ _ _ (g4 T hT)]
+      cases step6Ctx c fam o ((detrG c o.sigO ob).map T.1) (((detrG c o.sigO ob).map T.1).map T5)
+          ((detrG c o.sigH h).map T.2.1) ((detrG c o.sigF x).map T.2.2) with
+      | error e => rfl
+      | ok m =>
+        simp only [Except.map, Except.bind]
+        congr 1
+        rw [List.map_map, step7_pointwise]
+        rfl
+
+open Model.Isimip in
+theorem isimip_window_orderFree (c : Cfg) (fam : IsiFamily) (o : Oracles) (d : Draws) :
+    OrderFreeE (winCtx c fam o d) (winG c o) := by
+  constructor
+  · intro ob ob' h h' x x' ho hh hx
+    unfold winCtx
+    rw [step4Ctx_perm c d (detrG_perm c o.sigO ho) (detrG_perm c o.sigH hh) (detrG_perm c o.sigF hx)]
+    cases step4Ctx c d (detrG c o.sigO ob') (detrG c o.sigH h') (detrG c o.sigF x') with
+    | error e => rfl
+    | ok T =>
+      simp only [Except.bind]
+      rw [isimipCtx_perm c fam o ((detrG_perm c o.sigO ho).map T.1) ((detrG_perm c o.sigH hh).map T.2.1)
+        ((detrG_perm c o.sigF hx).map T.2.2)]
+  · intro Tm x x' hx
+    funext p
+    unfold winG
+    rw [trendG_perm c o.sigF hx, rankRead_perm Tm.2 ((detrG_perm c o.sigF hx).map Tm.1)]
+
+open Model.Isimip in
+/-- the guard does not depend on the storage order -/
+theorem WindowGuard_perm (c : Cfg) (o : Oracles) (d : Draws) {ob ob' h h' x x' : List Dated}
+    (ho : ob.Perm ob') (hh : h.Perm h') (hx : x.Perm x') (hg : WindowGuard c o d ob h x) :
+    WindowGuard c o d ob' h' x' := by
+  obtain ⟨g1, g2, g3, g4⟩ := hg
+  refine ⟨SeriesGuard_perm c _ (detrG_perm c o.sigO ho) g1, SeriesGuard_perm c _ (detrG_perm c o.sigH hh) g2,
+    SeriesGuard_perm c _ (detrG_perm c o.sigF hx) g3, ?_⟩
+  intro T hT
+  rw [← step4Ctx_perm c d (detrG_perm c o.sigO ho) (detrG_perm c o.sigH hh) (detrG_perm c o.sigF hx)] at hT
+  exact (((detrG_perm c o.sigF hx).map T.2.2).nodup_iff).mp (g4 T hT)
+
+open Model.Isimip in
+/-- the window function of the skeleton on dated pairs, as an element-wise map -/
+theorem isimipWinFnD_pointwise (c : Cfg) (fam : IsiFamily) (o : Oracles) (d : Draws) (ob h x : List Dated)
+    (hg : WindowGuard c o d ob h x) (io ih ix : List Nat) :
+    isimipWinFnD c fam o d ob h x io ih ix = (winCtx c fam o d ob h x).map (fun Tm => x.map (winG c o Tm x)) := by
+  unfold isimipWinFnD
+  rw [isimip_window_pointwise_orderfree c fam o d ob h x hg]
+  cases winCtx c fam o d ob h x with
+  | error e => rfl
+  | ok Tm =>
+    simp only [Except.map]
+    congr 1
+    rw [zip_map_snd]
+    apply List.map_congr_left
+    intro p _
+    rfl
+
+open Model.Isimip in
+/-- **ISIMIP running-window loop, every configuration** (dated pairs; oracles and draws a function of the window
+    centre; tie-free guard on every window): either both runs succeed and the result is permuted like `cm_future`,
+    every step keeping its year, or both raise the same error. -/
+theorem isimip_rw_time_order_equivariant (c : Cfg) (fam : IsiFamily) (orc : Int → Oracles) (drw : Int → Draws)
+    (L S h : Int) (dO dH dF : List Int) (obs hist fut : List Dated) (pO pH pF : List Nat)
+    (hpO : pO.Perm (List.range obs.length)) (hpH : pH.Perm (List.range hist.length))
+    (hpF : pF.Perm (List.range fut.length))
+    (hlO : dO.length = obs.length) (hlH : dH.length = hist.length) (hlF : dF.length = fut.length)
+    (hS : S = 2 * h + 1) (hh : 0 ≤ h) (hSL : S ≤ L) (hr : ∀ d ∈ dF, 1 ≤ d ∧ d ≤ 366)
+    (hg : ∀ cc ∈ useCenters S dF, WindowGuard c (orc cc) (drw cc) (take obs (idxWindow L dO cc))
+      (take hist (idxWindow L dH cc)) (take fut (idxWindow L dF cc))) :
+    (∃ out, applyLocationRWC (fun cc => isimipWinFnD c fam (orc cc) (drw cc)) L S dO dH dF obs hist fut = .ok out ∧
+      applyLocationRWC (fun cc => isimipWinFnD c fam (orc cc) (drw cc)) L S (take dO pO) (take dH pH) (take dF pF)
+        (take obs pO) (take hist pH) (take fut pF) = .ok (take out pF)) ∨
+    (∃ e, applyLocationRWC (fun cc => isimipWinFnD c fam (orc cc) (drw cc)) L S dO dH dF obs hist fut = .error e ∧
+      applyLocationRWC (fun cc => isimipWinFnD c fam (orc cc) (drw cc)) L S (take dO pO) (take dH pH) (take dF pF)
+        (take obs pO) (take hist pH) (take fut pF) = .error e) := by
+  let f' : Int → WinFn Dated := fun cc ob h x _ _ _ =>
+    (winCtx c fam (orc cc) (drw cc) ob h x).map (fun Tm => x.map (winG c (orc cc) Tm x))
+  have hff : ∀ cc ob h x io ih ix, WindowGuard c (orc cc) (drw cc) ob h x →
+      isimipWinFnD c fam (orc cc) (drw cc) ob h x io ih ix = f' cc ob h x io ih ix :=
+    fun cc ob h x io ih ix hx => isimipWinFnD_pointwise c fam (orc cc) (drw cc) ob h x hx io ih ix
+  have hpFd : pF.Perm (List.range dF.length) := hlF ▸ hpF
+  have hg' : ∀ cc ∈ useCenters S (take dF pF), WindowGuard c (orc cc) (drw cc)
+      (take (take obs pO) (idxWindow L (take dO pO) cc)) (take (take hist pH) (idxWindow L (take dH pH) cc))
+      (take (take fut pF) (idxWindow L (take dF pF) cc)) := by
+    intro cc hcc
+    rw [useCenters_perm S _ _ (take_perm dF pF hpFd)] at hcc
+    unfold idxWindow
+    exact WindowGuard_perm c (orc cc) (drw cc) (window_sample_perm obs dO _ pO hlO.symm hpO).symm
+      (window_sample_perm hist dH _ pH hlH.symm hpH).symm (window_sample_perm fut dF _ pF hlF.symm hpF).symm (hg cc hcc)
+  rw [applyLocationRWC_congr_on _ f' (fun cc => WindowGuard c (orc cc) (drw cc)) hff L S dO dH dF obs hist fut hg,
+    applyLocationRWC_congr_on _ f' (fun cc => WindowGuard c (orc cc) (drw cc)) hff L S _ _ _ _ _ _ hg']
+  exact equivariance_RWC_E f' (fun cc => winCtx c fam (orc cc) (drw cc)) (fun cc => winG c (orc cc))
+    (fun _ _ _ _ _ _ _ => rfl) (fun cc => isimip_window_orderFree c fam (orc cc) (drw cc))
+    L S h dO dH dF obs hist fut pO pH pF hpO hpH hpF hlO hlH hlF hS hh hSL hr
+
+open Model.Isimip in
+/-- tie to `Model.Isimip.winFn` with oracles / draws keyed by the index list of the future window: on the window samples
+    of the zipped series the dated window function is the model's -/
+theorem isimipWinD_eq_winFn_keyed (c : Cfg) (fam : IsiFamily) (orc : List Nat → Oracles) (drw : List Nat → Draws)
+    (obs H F : List Rat) (yO yH yF : List Int) (iO iH iF : List Nat)
+    (hlO : obs.length = yO.length) (hlH : H.length = yH.length) (hlF : F.length = yF.length)
+    (hvO : ∀ j ∈ iO, j < obs.length) (hvH : ∀ j ∈ iH, j < H.length) (hvF : ∀ j ∈ iF, j < F.length) :
+    isimipWinD c fam (orc iF) (drw iF) (take (obs.zip yO) iO) (take (H.zip yH) iH) (take (F.zip yF) iF) =
+      winFn c fam orc drw yO yH yF (take obs iO) (take H iH) (take F iF) iO iH iF :=
+  isimipWinD_eq_winFn c fam (orc iF) (drw iF) obs H F yO yH yF iO iH iF hlO hlH hlF hvO hvH hvF
+
+/-! ## 9c. `Model.Isimip.applyLocationRW` — `ISIMIP.apply_location` as a whole: step 1 (scaling by the annual cycle of upper
+  bounds, rsds), the window loop with oracles / draws keyed by the window, step 8 (re-scaling by the debiased cycle,
+  looked up by SORTED unique day of year) -/
+
+/-- both runs succeed and the second result is the first one permuted by `p`, or both raise the same error -/
+def SameUpToOrder {α} (r r' : Except String (List (Option α))) (p : List Nat) : Prop :=
+  (∃ out, r = .ok out ∧ r' = .ok (take out p)) ∨ (∃ e, r = .error e ∧ r' = .error e)
+
+theorem applyLocationRW_length {α} (f : WinFn α) (L S : Int) (dO dH dF : List Int) (obs hist fut : List α)
+    (out : List (Option α)) (h : applyLocationRW f L S dO dH dF obs hist fut = .ok out) : out.length = fut.length := by
+  obtain ⟨wss, _, rfl⟩ := Lemmas.Skeleton.runLoop_ok _ _ _ _ h
+  rw [Lemmas.Skeleton.applyWrites_length]; simp
+
+open Model.Isimip in
+/-- **steps 1 and 8 lift the time-order equivariance of the window loop to `apply_location`**: for calendar days of year
+    step 1 never raises and scales each series element-wise by a table that does not depend on the storage order; step 8
+    re-scales element-wise.  `hinner`: the window loop on the scaled series is time-order equivariant. -/
+theorem isimip_steps18_lift (c : Cfg) (fam : IsiFamily) (orc orc' : List Nat → Oracles) (drw drw' : List Nat → Draws)
+    (L S : Int) (dO dH dF yO yH yF yO' yH' yF' : List Int) (obs H F : List Rat) (pO pH pF : List Nat)
+    (hpO : pO.Perm (List.range obs.length)) (hpH : pH.Perm (List.range H.length)) (hpF : pF.Perm (List.range F.length))
+    (hlO : dO.length = obs.length) (hlH : dH.length = H.length) (hlF : dF.length = F.length)
+    (hrO : ∀ d ∈ dO, 1 ≤ d ∧ d ≤ 366) (hrH : ∀ d ∈ dH, 1 ≤ d ∧ d ≤ 366) (hrF : ∀ d ∈ dF, 1 ≤ d ∧ d ≤ 366)
+    (hinner : ∀ o1 h1 f1 cyc, step1 c obs H F dO dH dF = .ok (o1, h1, f1, cyc) →
+      SameUpToOrder (Model.Skeleton.applyLocationRW (winFn c fam orc drw yO yH yF) L S dO dH dF o1 h1 f1)
+        (Model.Skeleton.applyLocationRW (winFn c fam orc' drw' yO' yH' yF') L S (take dO pO) (take dH pH) (take dF pF)
+          (take o1 pO) (take h1 pH) (take f1 pF)) pF) :
+    SameUpToOrder (Model.Isimip.applyLocationRW c fam orc drw L S dO dH dF yO yH yF obs H F)
+      (Model.Isimip.applyLocationRW c fam orc' drw' L S (take dO pO) (take dH pH) (take dF pF) yO' yH' yF'
+        (take obs pO) (take H pH) (take F pF)) pF := by
+  obtain ⟨⟨o1, h1, f1, cyc⟩, hs1⟩ := step1_ok c obs H F dO dH dF hrO hrH hrF
+  have hs1' := step1_take c obs H F dO dH dF pO pH pF hlO.symm hlH.symm hlF.symm hpO hpH hpF o1 h1 f1 cyc hs1
+  obtain ⟨_, _, hf1, hcyc⟩ := step1_cycle c obs H F dO dH dF o1 h1 f1 cyc hlO.symm hlH.symm hlF.symm hs1
+  unfold Model.Isimip.applyLocationRW
+  rw [hs1, hs1']
+  simp only [bind, Except.bind]
+  rcases hinner o1 h1 f1 cyc hs1 with ⟨out, e1, e2⟩ | ⟨e, e1, e2⟩
+  · rw [e1, e2]
+    simp only []
+    have hol : out.length = dF.length := by rw [applyLocationRW_length _ _ _ _ _ _ _ _ _ out e1, hf1, hlF]
+    obtain ⟨r, hr8⟩ := step8Buffer_ok c out cyc dF hrF hcyc
+    have hpo : pF.Perm (List.range out.length) := by rw [hol, hlF]; exact hpF
+    exact Or.inl ⟨r, hr8, step8Buffer_take c out cyc dF pF hol hpo r hr8⟩
+  · rw [e1, e2]
+    exact Or.inr ⟨e, rfl, rfl⟩
+
+/-! ### the window loop on plain values when step 3 is off (`detrending = False`: every variable except tas, psl, rlds) -/
+
+/-- a value as a dated pair with a dummy year (the years are not read when `detrending = False`) -/
+def undated (x : List Rat) : List Dated := x.map (fun a => (a, 0))
+
+theorem undated_perm {x x' : List Rat} (h : x.Perm x') : (undated x).Perm (undated x') := h.map _
+
+open Model.Isimip in
+theorem applyOnWindow_years_irrelevant (c : Cfg) (fam : IsiFamily) (o : Oracles) (d : Draws) (obs H F : List Rat)
+    (y1 y2 y3 : List Int) (hd : c.detrending = false) :
+    applyOnWindow c fam o d obs H F y1 y2 y3 = isimipWinD c fam o d (undated obs) (undated H) (undated F) := by
+  have hm : ∀ l : List Rat, (undated l).map Prod.fst = l := by
+    intro l
+    unfold undated
+    rw [List.map_map]
+    exact List.map_id l
+  unfold isimipWinD
+  rw [hm, hm, hm, Lemmas.IsimipModel.applyOnWindow_eq, Lemmas.IsimipModel.applyOnWindow_eq,
+    Lemmas.IsimipModel.step3_of_not_detrending c o hd, Lemmas.IsimipModel.step3_of_not_detrending c o hd]
+
+open Model.Isimip in
+/-- **the ISIMIP window loop on plain values** (`Skeleton.applyLocationRW (Model.Isimip.winFn …)`, `detrending = False`,
+    every other setting arbitrary): oracles and draws keyed by the index list of the future window; the two runs get the
+    same oracle decisions and the same random numbers for the window of the same centre (`hkey`). -/
+theorem isimip_rw_values_time_order_equivariant (c : Cfg) (fam : IsiFamily) (orc orc' : List Nat → Oracles)
+    (drw drw' : List Nat → Draws) (yO yH yF yO' yH' yF' : List Int) (hd : c.detrending = false)
+    (L S h : Int) (dO dH dF : List Int) (obs hist fut : List Rat) (pO pH pF : List Nat)
+    (hpO : pO.Perm (List.range obs.length)) (hpH : pH.Perm (List.range hist.length))
+    (hpF : pF.Perm (List.range fut.length))
+    (hlO : dO.length = obs.length) (hlH : dH.length = hist.length) (hlF : dF.length = fut.length)
+    (hS : S = 2 * h + 1) (hh : 0 ≤ h) (hSL : S ≤ L) (hr : ∀ d ∈ dF, 1 ≤ d ∧ d ≤ 366)
+    (hkey : ∀ cc ∈ useCenters S dF, orc' (idxWindow L (take dF pF) cc) = orc (idxWindow L dF cc) ∧
+      drw' (idxWindow L (take dF pF) cc) = drw (idxWindow L dF cc))
+    (hg : ∀ cc ∈ useCenters S dF, WindowGuard c (orc (idxWindow L dF cc)) (drw (idxWindow L dF cc))
+      (undated (take obs (idxWindow L dO cc))) (undated (take hist (idxWindow L dH cc)))
+      (undated (take fut (idxWindow L dF cc)))) :
+    SameUpToOrder (Model.Skeleton.applyLocationRW (winFn c fam orc drw yO yH yF) L S dO dH dF obs hist fut)
+      (Model.Skeleton.applyLocationRW (winFn c fam orc' drw' yO' yH' yF') L S (take dO pO) (take dH pH) (take dF pF) (take obs pO)
+        (take hist pH) (take fut pF)) pF := by
+  -- centre-dependent form of both runs
+  let oc : Int → Oracles := fun cc => orc (idxWindow L dF cc)
+  let dc : Int → Draws := fun cc => drw (idxWindow L dF cc)
+  let g : Int → WinFn Rat := fun cc o hh x _ _ _ => isimipWinD c fam (oc cc) (dc cc) (undated o) (undated hh) (undated x)
+  have hpFd : pF.Perm (List.range dF.length) := hlF ▸ hpF
+  have hcs : useCenters S (take dF pF) = useCenters S dF := useCenters_perm S _ _ (take_perm dF pF hpFd)
+  have e1 : Model.Skeleton.applyLocationRW (winFn c fam orc drw yO yH yF) L S dO dH dF obs hist fut =
+      applyLocationRWC g L S dO dH dF obs hist fut := by
+    unfold Model.Skeleton.applyLocationRW applyLocationRWC
+    apply Lemmas.Lift.runLoop_congr
+    intro cc _
+    unfold windowWrites winFn
+    simp only [applyOnWindow_years_irrelevant c fam _ _ _ _ _ _ _ _ hd, g, oc, dc]
+  have e2 : Model.Skeleton.applyLocationRW (winFn c fam orc' drw' yO' yH' yF') L S (take dO pO) (take dH pH) (take dF pF) (take obs pO)
+      (take hist pH) (take fut pF) =
+      applyLocationRWC g L S (take dO pO) (take dH pH) (take dF pF) (take obs pO) (take hist pH) (take fut pF) := by
+    unfold Model.Skeleton.applyLocationRW applyLocationRWC
+    apply Lemmas.Lift.runLoop_congr
+    intro cc hcc
+    rw [hcs] at hcc
+    unfold windowWrites winFn
+    simp only [applyOnWindow_years_irrelevant c fam _ _ _ _ _ _ _ _ hd, g, oc, dc, (hkey cc hcc).1, (hkey cc hcc).2]
+  rw [e1, e2]
+  -- the total element-wise twin and the guard
+  let E : Int → List Rat → List Rat → List Rat → Except String ((Rat → Rat) × List Rat) :=
+    fun cc o hh x => winCtx c fam (oc cc) (dc cc) (undated o) (undated hh) (undated x)
+  let G : Int → (Rat → Rat) × List Rat → List Rat → Rat → Rat :=
+    fun cc Tm x a => (winG c (oc cc) Tm (undated x) (a, 0)).1
+  let f' : Int → WinFn Rat := fun cc o hh x _ _ _ => (E cc o hh x).map (fun Tm => x.map (G cc Tm x))
+  let Pw : Int → List Rat → List Rat → List Rat → Prop :=
+    fun cc o hh x => WindowGuard c (oc cc) (dc cc) (undated o) (undated hh) (undated x)
+  have hff : ∀ cc o hh x io ih ix, Pw cc o hh x → g cc o hh x io ih ix = f' cc o hh x io ih ix := by
+    intro cc o hh x io ih ix hx
+    simp only [g, f', E, G]
+    rw [isimip_window_pointwise_orderfree c fam (oc cc) (dc cc) _ _ _ hx]
+    cases winCtx c fam (oc cc) (dc cc) (undated o) (undated hh) (undated x) with
+    | error e => rfl
+    | ok Tm =>
+      simp only [Except.map, undated, List.map_map]
+      rfl
+  have hg' : ∀ cc ∈ useCenters S (take dF pF), Pw cc (take (take obs pO) (idxWindow L (take dO pO) cc))
+      (take (take hist pH) (idxWindow L (take dH pH) cc)) (take (take fut pF) (idxWindow L (take dF pF) cc)) := by
+    intro cc hcc
+    rw [hcs] at hcc
+    unfold idxWindow
+    exact WindowGuard_perm c (oc cc) (dc cc)
+      (undated_perm (window_sample_perm obs dO _ pO hlO.symm hpO).symm)
+      (undated_perm (window_sample_perm hist dH _ pH hlH.symm hpH).symm)
+      (undated_perm (window_sample_perm fut dF _ pF hlF.symm hpF).symm) (hg cc hcc)
+  rw [applyLocationRWC_congr_on g f' Pw hff L S dO dH dF obs hist fut hg,
+    applyLocationRWC_congr_on g f' Pw hff L S _ _ _ _ _ _ hg']
+  refine equivariance_RWC_E f' E G (fun _ _ _ _ _ _ _ => rfl) (fun cc => ⟨?_, ?_⟩)
+    L S h dO dH dF obs hist fut pO pH pF hpO hpH hpF hlO hlH hlF hS hh hSL hr
+  · intro o o' hh' hh'' x x' ho hh1 hx
+    exact (isimip_window_orderFree c fam (oc cc) (dc cc)).1 _ _ _ _ _ _ (undated_perm ho) (undated_perm hh1) (undated_perm hx)
+  · intro Tm x x' hx
+    funext a
+    simp only [G]
+    rw [(isimip_window_orderFree c fam (oc cc) (dc cc)).2 Tm _ _ (undated_perm hx)]
+
+open Model.Isimip in
+/-- **`ISIMIP.apply_location` (running-window mode) is time-order equivariant — every variable without detrending**
+    (hurs, pr, prsnratio, rsds with its annual-cycle scaling, sfcWind, tasrange, tasskew, and any custom configuration
+    with `detrending = False`), on `Model.Isimip.applyLocationRW` itself. -/
+theorem isimip_apply_location_time_order_equivariant (c : Cfg) (fam : IsiFamily) (orc orc' : List Nat → Oracles)
+    (drw drw' : List Nat → Draws) (yO yH yF yO' yH' yF' : List Int) (hd : c.detrending = false)
+    (L S h : Int) (dO dH dF : List Int) (obs hist fut : List Rat) (pO pH pF : List Nat)
+    (hpO : pO.Perm (List.range obs.length)) (hpH : pH.Perm (List.range hist.length))
+    (hpF : pF.Perm (List.range fut.length))
+    (hlO : dO.length = obs.length) (hlH : dH.length = hist.length) (hlF : dF.length = fut.length)
+    (hS : S = 2 * h + 1) (hh : 0 ≤ h) (hSL : S ≤ L)
+    (hrO : ∀ d ∈ dO, 1 ≤ d ∧ d ≤ 366) (hrH : ∀ d ∈ dH, 1 ≤ d ∧ d ≤ 366) (hrF : ∀ d ∈ dF, 1 ≤ d ∧ d ≤ 366)
+    (hkey : ∀ cc ∈ useCenters S dF, orc' (idxWindow L (take dF pF) cc) = orc (idxWindow L dF cc) ∧
+      drw' (idxWindow L (take dF pF) cc) = drw (idxWindow L dF cc))
+    (hg : ∀ o1 h1 f1 cyc, step1 c obs hist fut dO dH dF = .ok (o1, h1, f1, cyc) →
+      ∀ cc ∈ useCenters S dF, WindowGuard c (orc (idxWindow L dF cc)) (drw (idxWindow L dF cc))
+        (undated (take o1 (idxWindow L dO cc))) (undated (take h1 (idxWindow L dH cc)))
+        (undated (take f1 (idxWindow L dF cc)))) :
+    SameUpToOrder (Model.Isimip.applyLocationRW c fam orc drw L S dO dH dF yO yH yF obs hist fut)
+      (Model.Isimip.applyLocationRW c fam orc' drw' L S (take dO pO) (take dH pH) (take dF pF) yO' yH' yF'
+        (take obs pO) (take hist pH) (take fut pF)) pF := by
+  apply isimip_steps18_lift c fam orc orc' drw drw' L S dO dH dF yO yH yF yO' yH' yF' obs hist fut pO pH pF
+    hpO hpH hpF hlO hlH hlF hrO hrH hrF
+  intro o1 h1 f1 cyc hs1
+  obtain ⟨l1, l2, l3, _⟩ := step1_cycle c obs hist fut dO dH dF o1 h1 f1 cyc hlO.symm hlH.symm hlF.symm hs1
+  exact isimip_rw_values_time_order_equivariant c fam orc orc' drw drw' yO yH yF yO' yH' yF' hd L S h dO dH dF o1 h1 f1
+    pO pH pF (l1 ▸ hpO) (l2 ▸ hpH) (l3 ▸ hpF) (hlO.trans l1.symm) (hlH.trans l2.symm) (hlF.trans l3.symm) hS hh hSL hrF hkey
+    (hg o1 h1 f1 cyc hs1)
+
+/-! ### month mode (`running_window_mode = False`): the same for the loop over the calendar months -/
+
+open Model.Isimip in
+/-- **ISIMIP month loop, every configuration** (dated pairs; oracles and draws a function of the month) -/
+theorem isimip_months_time_order_equivariant (c : Cfg) (fam : IsiFamily) (orc : Int → Oracles) (drw : Int → Draws)
+    (mO mH mF : List Int) (obs hist fut : List Dated) (pO pH pF : List Nat)
+    (hpO : pO.Perm (List.range obs.length)) (hpH : pH.Perm (List.range hist.length))
+    (hpF : pF.Perm (List.range fut.length))
+    (hlO : mO.length = obs.length) (hlH : mH.length = hist.length) (hlF : mF.length = fut.length)
+    (hr : ∀ m ∈ mF, 1 ≤ m ∧ m ≤ 12)
+    (hg : ∀ m ∈ Py.arange1 1 13, WindowGuard c (orc m) (drw m) (take obs (indicesIn mO [m]))
+      (take hist (indicesIn mH [m])) (take fut (indicesIn mF [m]))) :
+    SameUpToOrder (applyLocationMonthsC (fun m => isimipWinFnD c fam (orc m) (drw m)) mO mH mF obs hist fut)
+      (applyLocationMonthsC (fun m => isimipWinFnD c fam (orc m) (drw m)) (take mO pO) (take mH pH) (take mF pF)
+        (take obs pO) (take hist pH) (take fut pF)) pF := by
+  let f' : Int → WinFn Dated := fun m ob h x _ _ _ =>
+    (winCtx c fam (orc m) (drw m) ob h x).map (fun Tm => x.map (winG c (orc m) Tm x))
+  have hff : ∀ m ob h x io ih ix, WindowGuard c (orc m) (drw m) ob h x →
+      isimipWinFnD c fam (orc m) (drw m) ob h x io ih ix = f' m ob h x io ih ix :=
+    fun m ob h x io ih ix hx => isimipWinFnD_pointwise c fam (orc m) (drw m) ob h x hx io ih ix
+  have hg' : ∀ m ∈ Py.arange1 1 13, WindowGuard c (orc m) (drw m) (take (take obs pO) (indicesIn (take mO pO) [m]))
+      (take (take hist pH) (indicesIn (take mH pH) [m])) (take (take fut pF) (indicesIn (take mF pF) [m])) :=
+    fun m hm => WindowGuard_perm c (orc m) (drw m) (window_sample_perm obs mO _ pO hlO.symm hpO).symm
+      (window_sample_perm hist mH _ pH hlH.symm hpH).symm (window_sample_perm fut mF _ pF hlF.symm hpF).symm (hg m hm)
+  unfold SameUpToOrder
+  rw [applyLocationMonthsC_congr_on _ f' (fun m => WindowGuard c (orc m) (drw m)) hff mO mH mF obs hist fut hg,
+    applyLocationMonthsC_congr_on _ f' (fun m => WindowGuard c (orc m) (drw m)) hff _ _ _ _ _ _ hg']
+  exact equivariance_monthsC_E f' (fun m => winCtx c fam (orc m) (drw m)) (fun m => winG c (orc m))
+    (fun _ _ _ _ _ _ _ => rfl) (fun m => isimip_window_orderFree c fam (orc m) (drw m))
+    mO mH mF obs hist fut pO pH pF hpO hpH hpF hlO hlH hlF hr
+
+theorem applyLocationMonths_length {α} (f : WinFn α) (mO mH mF : List Int) (obs hist fut : List α)
+    (out : List (Option α)) (h : applyLocationMonths f mO mH mF obs hist fut = .ok out) : out.length = fut.length := by
+  obtain ⟨wss, _, rfl⟩ := Lemmas.Skeleton.runLoop_ok _ _ _ _ h
+  rw [Lemmas.Skeleton.applyWrites_length]; simp
+
+open Model.Isimip in
+/-- steps 1 and 8 around the month loop -/
+theorem isimip_steps18_lift_months (c : Cfg) (fam : IsiFamily) (orc orc' : List Nat → Oracles) (drw drw' : List Nat → Draws)
+    (mO mH mF dO dH dF yO yH yF yO' yH' yF' : List Int) (obs H F : List Rat) (pO pH pF : List Nat)
+    (hpO : pO.Perm (List.range obs.length)) (hpH : pH.Perm (List.range H.length)) (hpF : pF.Perm (List.range F.length))
+    (hlO : dO.length = obs.length) (hlH : dH.length = H.length) (hlF : dF.length = F.length)
+    (hrO : ∀ d ∈ dO, 1 ≤ d ∧ d ≤ 366) (hrH : ∀ d ∈ dH, 1 ≤ d ∧ d ≤ 366) (hrF : ∀ d ∈ dF, 1 ≤ d ∧ d ≤ 366)
+    (hinner : ∀ o1 h1 f1 cyc, step1 c obs H F dO dH dF = .ok (o1, h1, f1, cyc) →
+      SameUpToOrder (Model.Skeleton.applyLocationMonths (winFn c fam orc drw yO yH yF) mO mH mF o1 h1 f1)
+        (Model.Skeleton.applyLocationMonths (winFn c fam orc' drw' yO' yH' yF') (take mO pO) (take mH pH) (take mF pF)
+          (take o1 pO) (take h1 pH) (take f1 pF)) pF) :
+    SameUpToOrder (Model.Isimip.applyLocationMonths c fam orc drw mO mH mF dO dH dF yO yH yF obs H F)
+      (Model.Isimip.applyLocationMonths c fam orc' drw' (take mO pO) (take mH pH) (take mF pF) (take dO pO) (take dH pH)
+        (take dF pF) yO' yH' yF' (take obs pO) (take H pH) (take F pF)) pF := by
+  obtain ⟨⟨o1, h1, f1, cyc⟩, hs1⟩ := step1_ok c obs H F dO dH dF hrO hrH hrF
+  have hs1' := step1_take c obs H F dO dH dF pO pH pF hlO.symm hlH.symm hlF.symm hpO hpH hpF o1 h1 f1 cyc hs1
+  obtain ⟨_, _, hf1, hcyc⟩ := step1_cycle c obs H F dO dH dF o1 h1 f1 cyc hlO.symm hlH.symm hlF.symm hs1
+  unfold Model.Isimip.applyLocationMonths
+  rw [hs1, hs1']
+  simp only [bind, Except.bind]
+  rcases hinner o1 h1 f1 cyc hs1 with ⟨out, e1, e2⟩ | ⟨e, e1, e2⟩
+  · rw [e1, e2]
+    simp only []
+    have hol : out.length = dF.length := by rw [applyLocationMonths_length _ _ _ _ _ _ _ out e1, hf1, hlF]
+    obtain ⟨r, hr8⟩ := step8Buffer_ok c out cyc dF hrF hcyc
+    have hpo : pF.Perm (List.range out.length) := by rw [hol, hlF]; exact hpF
+    exact Or.inl ⟨r, hr8, step8Buffer_take c out cyc dF pF hol hpo r hr8⟩
+  · rw [e1, e2]
+    exact Or.inr ⟨e, rfl, rfl⟩
+
+/-- the index list the month loop hands to the window function -/
+def monthIdx (ms : List Int) (m : Int) : List Nat := Py.whereTrue (ms.map (fun x => decide (x = m)))
+
+open Model.Isimip in
+/-- **the ISIMIP month loop on plain values**, `detrending = False`, oracles / draws keyed by the index list of the
+    month's future sample -/
+theorem isimip_months_values_time_order_equivariant (c : Cfg) (fam : IsiFamily) (orc orc' : List Nat → Oracles)
+    (drw drw' : List Nat → Draws) (yO yH yF yO' yH' yF' : List Int) (hd : c.detrending = false)
+    (mO mH mF : List Int) (obs hist fut : List Rat) (pO pH pF : List Nat)
+    (hpO : pO.Perm (List.range obs.length)) (hpH : pH.Perm (List.range hist.length))
+    (hpF : pF.Perm (List.range fut.length))
+    (hlO : mO.length = obs.length) (hlH : mH.length = hist.length) (hlF : mF.length = fut.length)
+    (hr : ∀ m ∈ mF, 1 ≤ m ∧ m ≤ 12)
+    (hkey : ∀ m ∈ Py.arange1 1 13, orc' (monthIdx (take mF pF) m) = orc (monthIdx mF m) ∧
+      drw' (monthIdx (take mF pF) m) = drw (monthIdx mF m))
+    (hg : ∀ m ∈ Py.arange1 1 13, WindowGuard c (orc (monthIdx mF m)) (drw (monthIdx mF m))
+      (undated (take obs (indicesIn mO [m]))) (undated (take hist (indicesIn mH [m])))
+      (undated (take fut (indicesIn mF [m])))) :
+    SameUpToOrder (Model.Skeleton.applyLocationMonths (winFn c fam orc drw yO yH yF) mO mH mF obs hist fut)
+      (Model.Skeleton.applyLocationMonths (winFn c fam orc' drw' yO' yH' yF') (take mO pO) (take mH pH) (take mF pF)
+        (take obs pO) (take hist pH) (take fut pF)) pF := by
+  let oc : Int → Oracles := fun m => orc (monthIdx mF m)
+  let dc : Int → Draws := fun m => drw (monthIdx mF m)
+  let g : Int → WinFn Rat := fun m o hh x _ _ _ => isimipWinD c fam (oc m) (dc m) (undated o) (undated hh) (undated x)
+  have e1 : Model.Skeleton.applyLocationMonths (winFn c fam orc drw yO yH yF) mO mH mF obs hist fut =
+      applyLocationMonthsC g mO mH mF obs hist fut := by
+    unfold Model.Skeleton.applyLocationMonths applyLocationMonthsC
+    apply Lemmas.Lift.runLoop_congr
+    intro m _
+    unfold monthWrites winFn
+    simp only [applyOnWindow_years_irrelevant c fam _ _ _ _ _ _ _ _ hd, g, oc, dc, monthIdx]
+  have e2 : Model.Skeleton.applyLocationMonths (winFn c fam orc' drw' yO' yH' yF') (take mO pO) (take mH pH) (take mF pF)
+      (take obs pO) (take hist pH) (take fut pF) =
+      applyLocationMonthsC g (take mO pO) (take mH pH) (take mF pF) (take obs pO) (take hist pH) (take fut pF) := by
+    unfold Model.Skeleton.applyLocationMonths applyLocationMonthsC
+    apply Lemmas.Lift.runLoop_congr
+    intro m hm
+    unfold monthWrites winFn
+    have hk := hkey m hm
+    unfold monthIdx at hk
+    simp only [applyOnWindow_years_irrelevant c fam _ _ _ _ _ _ _ _ hd, g, oc, dc, monthIdx, hk.1, hk.2]
+  rw [e1, e2]
+  let E : Int → List Rat → List Rat → List Rat → Except String ((Rat → Rat) × List Rat) :=
+    fun m o hh x => winCtx c fam (oc m) (dc m) (undated o) (undated hh) (undated x)
+  let G : Int → (Rat → Rat) × List Rat → List Rat → Rat → Rat :=
+    fun m Tm x a => (winG c (oc m) Tm (undated x) (a, 0)).1
+  let f' : Int → WinFn Rat := fun m o hh x _ _ _ => (E m o hh x).map (fun Tm => x.map (G m Tm x))
+  let Pw : Int → List Rat → List Rat → List Rat → Prop :=
+    fun m o hh x => WindowGuard c (oc m) (dc m) (undated o) (undated hh) (undated x)
+  have hff : ∀ m o hh x io ih ix, Pw m o hh x → g m o hh x io ih ix = f' m o hh x io ih ix := by
+    intro m o hh x io ih ix hx
+    simp only [g, f', E, G]
+    rw [isimip_window_pointwise_orderfree c fam (oc m) (dc m) _ _ _ hx]
+    cases winCtx c fam (oc m) (dc m) (undated o) (undated hh) (undated x) with
+    | error e => rfl
+    | ok Tm =>
+      simp only [Except.map, undated, List.map_map]
+      rfl
+  have hg' : ∀ m ∈ Py.arange1 1 13, Pw m (take (take obs pO) (indicesIn (take mO pO) [m]))
+      (take (take hist pH) (indicesIn (take mH pH) [m])) (take (take fut pF) (indicesIn (take mF pF) [m])) :=
+    fun m hm => WindowGuard_perm c (oc m) (dc m)
+      (undated_perm (window_sample_perm obs mO _ pO hlO.symm hpO).symm)
+      (undated_perm (window_sample_perm hist mH _ pH hlH.symm hpH).symm)
+      (undated_perm (window_sample_perm fut mF _ pF hlF.symm hpF).symm) (hg m hm)
+  unfold SameUpToOrder
+  rw [applyLocationMonthsC_congr_on g f' Pw hff mO mH mF obs hist fut hg,
+    applyLocationMonthsC_congr_on g f' Pw hff _ _ _ _ _ _ hg']
+  refine equivariance_monthsC_E f' E G (fun _ _ _ _ _ _ _ => rfl) (fun m => ⟨?_, ?_⟩)
+    mO mH mF obs hist fut pO pH pF hpO hpH hpF hlO hlH hlF hr
+  · intro o o' hh' hh'' x x' ho hh1 hx
+    exact (isimip_window_orderFree c fam (oc m) (dc m)).1 _ _ _ _ _ _ (undated_perm ho) (undated_perm hh1) (undated_perm hx)
+  · intro Tm x x' hx
+    funext a
+    simp only [G]
+    rw [(isimip_window_orderFree c fam (oc m) (dc m)).2 Tm _ _ (undated_perm hx)]
+
+open Model.Isimip in
+/-- **`ISIMIP.apply_location` in month mode is time-order equivariant — every variable without detrending**, on
+    `Model.Isimip.applyLocationMonths` itself -/
+theorem isimip_apply_location_months_time_order_equivariant (c : Cfg) (fam : IsiFamily) (orc orc' : List Nat → Oracles)
+    (drw drw' : List Nat → Draws) (yO yH yF yO' yH' yF' : List Int) (hd : c.detrending = false)
+    (mO mH mF dO dH dF : List Int) (obs hist fut : List Rat) (pO pH pF : List Nat)
+    (hpO : pO.Perm (List.range obs.length)) (hpH : pH.Perm (List.range hist.length))
+    (hpF : pF.Perm (List.range fut.length))
+    (hmO : mO.length = obs.length) (hmH : mH.length = hist.length) (hmF : mF.length = fut.length)
+    (hlO : dO.length = obs.length) (hlH : dH.length = hist.length) (hlF : dF.length = fut.length)
+    (hr : ∀ m ∈ mF, 1 ≤ m ∧ m ≤ 12)
+    (hrO : ∀ d ∈ dO, 1 ≤ d ∧ d ≤ 366) (hrH : ∀ d ∈ dH, 1 ≤ d ∧ d ≤ 366) (hrF : ∀ d ∈ dF, 1 ≤ d ∧ d ≤ 366)
+    (hkey : ∀ m ∈ Py.arange1 1 13, orc' (monthIdx (take mF pF) m) = orc (monthIdx mF m) ∧
+      drw' (monthIdx (take mF pF) m) = drw (monthIdx mF m))
+    (hg : ∀ o1 h1 f1 cyc, step1 c obs hist fut dO dH dF = .ok (o1, h1, f1, cyc) →
+      ∀ m ∈ Py.arange1 1 13, WindowGuard c (orc (monthIdx mF m)) (drw (monthIdx mF m))
+        (undated (take o1 (indicesIn mO [m]))) (undated (take h1 (indicesIn mH [m])))
+        (undated (take f1 (indicesIn mF [m])))) :
+    SameUpToOrder (Model.Isimip.applyLocationMonths c fam orc drw mO mH mF dO dH dF yO yH yF obs hist fut)
+      (Model.Isimip.applyLocationMonths c fam orc' drw' (take mO pO) (take mH pH) (take mF pF) (take dO pO) (take dH pH)
+        (take dF pF) yO' yH' yF' (take obs pO) (take hist pH) (take fut pF)) pF := by
+  apply isimip_steps18_lift_months c fam orc orc' drw drw' mO mH mF dO dH dF yO yH yF yO' yH' yF' obs hist fut pO pH pF
+    hpO hpH hpF hlO hlH hlF hrO hrH hrF
+  intro o1 h1 f1 cyc hs1
+  obtain ⟨l1, l2, l3, _⟩ := step1_cycle c obs hist fut dO dH dF o1 h1 f1 cyc hlO.symm hlH.symm hlF.symm hs1
+  exact isimip_months_values_time_order_equivariant c fam orc orc' drw drw' yO yH yF yO' yH' yF' hd mO mH mF o1 h1 f1
+    pO pH pF (l1 ▸ hpO) (l2 ▸ hpH) (l3 ▸ hpF) (hmO.trans l1.symm) (hmH.trans l2.symm) (hmF.trans l3.symm) hr hkey
+    (hg o1 h1 f1 cyc hs1)
+
+/-! ## 9d. Fits as functions of the multiset: the left-censored gamma precipitation model
+
+  `fit(data)` hands the likelihood optimiser the values above the censoring threshold (a filter) and the number of
+  censored values.  If the optimiser does not depend on the order of its sample (its objective is a sum over the
+  sample; Nelder–Mead's floating-point order noise is carried by the oracle's tolerance), the fit satisfies `FitPerm`,
+  the one law the parametric theorems use. -/
+
+/-- the optimiser is a function of the multiset of the non-censored sample -/
+def InnerOrderFree {P : Type} (inner : List Rat → Int → Rat → P) : Prop :=
+  ∀ xs ys n t, xs.Perm ys → inner xs n t = inner ys n t
+
+theorem censoredFit_perm {P : Type} (inner : List Rat → Int → Rat → P) (hin : InnerOrderFree inner) (thr : Rat)
+    {data data' : List Rat} (h : data.Perm data') :
+    Model.PrecipFit.censoredFit inner thr data = Model.PrecipFit.censoredFit inner thr data' := by
+  unfold Model.PrecipFit.censoredFit
+  simp only []
+  rw [h.length_eq, (h.filter _).length_eq]
+  exact hin _ _ _ _ (h.filter _)
+
+/-- … for the fit regenerated from /repo's current source (tier A) -/
+theorem gen_censored_fit_perm (inner : List Rat → Int → Rat → Rat × Rat × Rat) (hin : InnerOrderFree inner) (thr : Rat)
+    {data data' : List Rat} (h : data.Perm data') :
+    Gen.PrecipFit.censored_fit inner thr data = Gen.PrecipFit.censored_fit inner thr data' := by
+  rw [Lemmas.GenPrecipFit.censored_fit, Lemmas.GenPrecipFit.censored_fit, censoredFit_perm inner hin thr h]
+
+/-- the censored-gamma family (cdf / ppf arbitrary) satisfies the law the parametric theorems need -/
+theorem censored_family_fitPerm {P : Type} (inner : List Rat → Int → Rat → P) (hin : InnerOrderFree inner) (thr : Rat)
+    (cdf ppf : P → Rat → Rat) : FitPerm { fit := Model.PrecipFit.censoredFit inner thr, cdf := cdf, ppf := ppf } :=
+  fun _ _ h => censoredFit_perm inner hin thr h
+
+/-- QDM for precipitation (censored gamma, seasonal and year windows): time-order equivariant -/
+theorem qdm_censored_years_time_order_equivariant {P : Type} (inner : List Rat → Int → Rat → P) (hin : InnerOrderFree inner)
+    (thr : Rat) (cdf ppf : P → Rat → Rat) (tp : TrendPres) (em : EcdfMethod) (t : Rat) (cz : Option Rat)
+    (YL YS hY : Int) (hS : YS = 2 * hY + 1) (hh : 0 ≤ hY) (hSL : YS ≤ YL) :
+    TimeOrderEquivariantRW (yearsWinFn (qdmYearFn { fit := Model.PrecipFit.censoredFit inner thr, cdf := cdf, ppf := ppf }
+      tp em t cz) YL YS) anySeries :=
+  qdm_years_time_order_equivariant _ (censored_family_fitPerm inner hin thr cdf ppf) tp em t cz YL YS hY hS hh hSL
+
+/-- an optimiser that satisfies the hypothesis (non-vacuity): the method-of-moments pair (mean, mean absolute deviation) -/
+example : InnerOrderFree (fun xs (_ : Int) (_ : Rat) => (mean xs, meanAbsDev xs)) :=
+  fun _ _ _ _ h => by simp only [Lemmas.Family.mean_perm h, Lemmas.Family.meanAbsDev_perm h]
+
+/-! ## 9e. The month loop (ISIMIP `running_window_mode = False`), restated here as a property theorem -/
+
+/-- **Time-order equivariance of the month loop** for a window function that is pointwise over an order-free context -/
+theorem equivariance_months {α} (f : WinFn α) (G : List α → List α → List α → α → α)
+    (hf : PointwiseOn f G) (hG : OrderFree G) (mO mH mF : List Int) (obs hist fut : List α)
+    (pO pH pF : List Nat)
+    (hpO : pO.Perm (List.range obs.length)) (hpH : pH.Perm (List.range hist.length))
+    (hpF : pF.Perm (List.range fut.length))
+    (hlO : mO.length = obs.length) (hlH : mH.length = hist.length) (hlF : mF.length = fut.length)
+    (hr : ∀ m ∈ mF, 1 ≤ m ∧ m ≤ 12) :
+    ∃ out, applyLocationMonths f mO mH mF obs hist fut = .ok out ∧
+      applyLocationMonths f (take mO pO) (take mH pH) (take mF pF) (take obs pO) (take hist pH) (take fut pF)
+        = .ok (take out pF) :=
+  Lemmas.C06.equivariance_months f G hf hG mO mH mF obs hist fut pO pH pF hpO hpH hpF hlO hlH hlF hr
+
+/-- a concrete instance of the month-loop guards: three series over different months, three different permutations -/
+example : ∃ out, applyLocationMonths (okFn (linearScaling .additive)) [1, 1, 2, 12] [2, 1, 12] [12, 1, 1, 2, 2]
+      [10, 11, 12, 13] [20, 21, 22] [1, 2, 3, 4, 5] = .ok out ∧
+    applyLocationMonths (okFn (linearScaling .additive)) (take [1, 1, 2, 12] [3, 1, 0, 2]) (take [2, 1, 12] [2, 0, 1])
+      (take [12, 1, 1, 2, 2] [4, 2, 0, 1, 3]) (take [10, 11, 12, 13] [3, 1, 0, 2]) (take [20, 21, 22] [2, 0, 1])
+      (take [1, 2, 3, 4, 5] [4, 2, 0, 1, 3]) = .ok (take out [4, 2, 0, 1, 3]) := by
+  obtain ⟨G, hpw, hG⟩ := ls_pointwise_orderfree .additive
+  exact equivariance_months (okFn (linearScaling .additive)) G (fun o h x _ _ _ => by simp [okFn, hpw]) hG
+    [1, 1, 2, 12] [2, 1, 12] [12, 1, 1, 2, 2] [10, 11, 12, 13] [20, 21, 22] [1, 2, 3, 4, 5] [3, 1, 0, 2] [2, 0, 1]
+    [4, 2, 0, 1, 3] (by decide) (by decide) (by decide) rfl rfl rfl (by decide)
+
 /-! ## 10. The hypotheses are satisfiable (non-vacuity) -/
 
 /-- the family law holds for the executable rational test double -/
@@ -952,5 +1526,28 @@ theorem detrended_windows_nodup_of_not_significant (c : Cfg) (o : Oracles) (hs :
   exact take_nodup _ _ hnd (indicesIn_nodup dF _)
 
 example : ([((3 : Rat), (2001 : Int)), (1, 2001), (2, 2002)].map Prod.fst).Nodup := by decide +kernel
+
+open Model.Isimip in
+/-- the guard of the general ISIMIP theorems is satisfiable: without a bound / threshold pair (ISIMIP's tas, psl, rlds
+    settings) it is tie-freeness of the (detrended) future window sample — the earlier `_partial` theorems are instances -/
+theorem windowGuard_of_no_threshold_pair (c : Cfg) (o : Oracles) (d : Draws) (ob h x : List Dated)
+    (hl : lowerActive c = false) (hu : upperActive c = false) (hnd : (detrG c o.sigF x).Nodup) :
+    WindowGuard c o d ob h x := by
+  have sg : ∀ dl vals, SeriesGuard c dl vals := by
+    intro dl vals
+    constructor
+    · intro ha; rw [hl] at ha; cases ha
+    · intro ha; rw [hu] at ha; cases ha
+  refine ⟨sg _ _, sg _ _, sg _ _, ?_⟩
+  intro T hT
+  unfold step4Ctx lowerCtx upperCtx at hT
+  simp only [hl, hu, Bool.false_eq_true, if_false, Except.bind] at hT
+  have := Except.ok.inj hT
+  rw [← this]
+  simpa using hnd
+
+open Model.Isimip in
+example : let c : Cfg := { trendMethod := .additive, nonparametricQm := false, detrending := true }
+    lowerActive c = false ∧ upperActive c = false := by decide
 
 end Props.C06
